@@ -525,8 +525,13 @@ class PathChecker:
             v = cobl.get(name)
             hit = name if (v is not None and self.logic._k(v).v is True) else None
             if hit is None:
+                # the float run may violate the property through ANOTHER obligation (e.g. the symbolic run left the modelled
+                # surface and raised, while the real code silently returns a wrong value): that is a reproduced violation too
+                hit = next((n2 for n2, v2 in cobl.items() if self.logic._k(v2).v is True), None)
+            if hit is None:
                 last = 'obligation %s evaluates to %s on the float run' % (name, v)
                 continue
+            name = hit
             res['violations'].append(dict(obligation=name, values={k: _jsonable(v) for k, v in vals.items()},
                                           detail=_jsonable(self.h.describe(cinp, cout)),
                                           outcome=cout.kind + (':' + type(cout.value).__name__ if cout.kind == 'raise' else ''),
@@ -735,6 +740,11 @@ def run_property(prop, module, tier, seed=0, workers=None, deadline_s=None, extr
     from concurrent.futures.process import BrokenProcessPool
     crashes = 0
 
+    known_ = load_known()
+
+    def _unlisted(p, cfgname):
+        return sum(1 for v in p['violations'] if _match_known(known_, prop, cfgname, v['obligation']) is None)
+
     def handle(j, a):
         p = per[j['cfg']['name']]
         functions.update(a.get('functions', []))
@@ -760,8 +770,8 @@ def run_property(prop, module, tier, seed=0, workers=None, deadline_s=None, extr
         p['samples'].sort(key=_sample_rank)
         del p['samples'][2:]
         left = a['leftover']
-        if len(p['violations']) >= 3:
-            # this configuration already produced reproduced counterexamples: the verdict is VIOLATION whatever the rest of
+        if _unlisted(p, j['cfg']['name']) >= 3:
+            # this configuration already produced reproduced counterexamples (not counting listed known findings): the verdict is VIOLATION whatever the rest of
             # its path tree holds; do not spend the time budget on it (the evidence then says exhaustive=false)
             p['leftover'] += len(left)
             p['stopped_early'] = True
@@ -783,7 +793,7 @@ def run_property(prop, module, tier, seed=0, workers=None, deadline_s=None, extr
             while pending_jobs or running:
                 while pending_jobs and len(running) < workers * 2:
                     j = pending_jobs.popleft()
-                    if len(per[j['cfg']['name']]['violations']) >= 3:
+                    if _unlisted(per[j['cfg']['name']], j['cfg']['name']) >= 3:
                         per[j['cfg']['name']]['leftover'] += len(j['prefixes'])
                         per[j['cfg']['name']]['stopped_early'] = True
                         continue
@@ -832,7 +842,7 @@ def run_property(prop, module, tier, seed=0, workers=None, deadline_s=None, extr
             if timed_out or broken:
                 for pr in list((getattr(pool, '_processes', None) or {}).values()):
                     try:
-                        pr.terminate()
+                        pr.kill()           # a worker inside a long solver call does not react to SIGTERM
                     except Exception:
                         pass
     for j in list(pending_jobs):
@@ -890,7 +900,7 @@ def finish(prop, mod, tier, seed, cfgs, per, functions, t0, timed_out, extra_evi
     for c in cfgs:
         for s in per[c['name']]['samples'][:1]:
             allsamples.append(dict(config=c['name'], **s))
-    exhaustive = not problems and not timed_out
+    exhaustive = not problems and not timed_out and not any(per[c['name']].get('stopped_early') for c in cfgs)
     ev = dict(
         property_id=prop, tier=tier, seed=seed, level='model_checking',
         coverage=dict(
